@@ -394,3 +394,143 @@ func VerifH_C16_api_session_refused_attr() {
 	vrt.Covered("failing-call-compared")
 	_ = f.Close()
 }
+
+// a refused replacement of an EXISTING attribute by a larger value (the header cannot grow in place: /b follows)
+// followed, through the same handle, by an accepted change that makes room (delete of another attribute, or a
+// same-size replacement): the file holds the previous value of the refused name plus exactly the accepted change.
+func VerifH_C16_api_session_refused_upsert() {
+	fw, err := CreateForWrite("c16u.h5", CreateTruncate, WithSuperblockVersion([]uint8{0, 2, 3}[vrt.Choice(3)]))
+	vrt.AssertNoErr(err, "create-ok")
+	a, err := fw.CreateDataset("/a", Int32, []uint64{1})
+	vrt.AssertNoErr(err, "create-a-ok")
+	vrt.AssertNoErr(a.Write([]int32{1}), "write-a-ok")
+	g0, k0 := vrt.I32(), vrt.I32()
+	vrt.AssertNoErr(a.WriteAttribute("note", "ab"), "attr-ok")
+	vrt.AssertNoErr(a.WriteAttribute("gain", g0), "attr-ok")
+	vrt.AssertNoErr(a.WriteAttribute("big", []int32{k0, 2, 3, 4, 5, 6}), "attr-ok")
+	b, err := fw.CreateDataset("/b", Int32, []uint64{1})
+	vrt.AssertNoErr(err, "create-b-ok")
+	vrt.AssertNoErr(b.Write([]int32{9}), "write-b-ok")
+	vrt.AssertNoErr(fw.Close(), "close-ok")
+	note, gain, hasGain, hasBig := "ab", g0, true, true
+
+	s, err := OpenForWrite("c16u.h5", OpenReadWrite)
+	vrt.AssertNoErr(err, "session-open-ok")
+	d, err := s.OpenDataset("/a")
+	vrt.AssertNoErr(err, "open-dataset-ok")
+	// the refused call: an existing name, a value that needs more room than the header has
+	var ferr error
+	which := vrt.Choice(2)
+	if which == 0 {
+		ferr = d.WriteAttribute("note", "abcdefghijklmnopqrstuvwxyz0123456789")
+		if ferr == nil {
+			note = "abcdefghijklmnopqrstuvwxyz0123456789"
+		}
+	} else {
+		ferr = d.WriteAttribute("gain", []int32{10, 20, 30, 40, 50, 60, 70, 80, 90, 100})
+		vrt.Assert(ferr != nil, "invalid-call-returns-error")
+	}
+	vrt.Covered("refused-upsert-made")
+	// an accepted later change through the same handle
+	g1 := vrt.I32()
+	switch vrt.Choice(3) {
+	case 0:
+		vrt.AssertNoErr(d.DeleteAttribute("big"), "later-delete-ok")
+		hasBig = false
+	case 1:
+		if which == 0 || ferr != nil {
+			vrt.AssertNoErr(d.WriteAttribute("gain", g1), "later-write-ok")
+			gain = g1
+		}
+	default:
+		if ferr != nil || which == 0 {
+			vrt.AssertNoErr(d.DeleteAttribute("gain"), "later-delete-ok")
+			hasGain = false
+		}
+	}
+	vrt.AssertNoErr(s.Close(), "close-ok")
+
+	f, err := Open("c16u.h5")
+	vrt.AssertNoErr(err, "reopen-ok")
+	da := verifFindDataset(f, "/a")
+	vrt.Assert(da != nil, "a-present")
+	if da != nil {
+		list, err := da.ListAttributes()
+		vrt.AssertNoErr(err, "a-attr-read-ok")
+		want := 1
+		if hasGain {
+			want++
+		}
+		if hasBig {
+			want++
+		}
+		vrt.Assert(len(list) == want, "a-attr-count-as-modelled")
+		got, err := da.ReadAttribute("note")
+		vrt.AssertNoErr(err, "a-attr-read-ok")
+		gs, ok := got.(string)
+		vrt.Assert(ok && gs == note, "refused-value-not-in-file")
+		if hasGain {
+			got, err := da.ReadAttribute("gain")
+			vrt.AssertNoErr(err, "a-attr-read-ok")
+			gi, ok := got.(int32)
+			vrt.Assert(ok && gi == gain, "refused-value-not-in-file")
+		}
+		if hasBig {
+			got, err := da.ReadAttribute("big")
+			vrt.AssertNoErr(err, "a-attr-read-ok")
+			gv, ok := got.([]int32)
+			vrt.Assert(ok && len(gv) == 6 && gv[0] == k0 && gv[5] == 6, "a-attr-unchanged")
+		}
+	}
+	db := verifFindDataset(f, "/b")
+	vrt.Assert(db != nil, "b-present")
+	if db != nil {
+		got, err := db.Read()
+		vrt.AssertNoErr(err, "b-read-ok")
+		vrt.Assert(len(got) == 1 && got[0] == 9, "b-data")
+	}
+	vrt.Covered("failing-call-compared")
+	_ = f.Close()
+}
+
+// a refused Resize of a rank-2 chunked dataset that holds data: the requested extent (each dimension forked over
+// shrink / keep / grow within / grow beyond the declared maximum {8,4}) is refused exactly when one dimension
+// exceeds its maximum, and a refused call leaves extent and every stored element as they were.
+func VerifH_C16_api_refused_resize_rank2() {
+	fw, err := CreateForWrite("c16z.h5", CreateTruncate)
+	vrt.AssertNoErr(err, "create-ok")
+	d, err := fw.CreateDataset("/r", Int32, []uint64{4, 4}, WithChunkDims([]uint64{2, 2}), WithMaxDims([]uint64{8, 4}))
+	vrt.AssertNoErr(err, "create-dataset-ok")
+	data := make([]int32, 16)
+	for i := range data {
+		data[i] = int32(i + 1)
+	}
+	data[9] = vrt.I32()
+	vrt.AssertNoErr(d.Write(data), "write-ok")
+	n0 := []uint64{2, 4, 6, 9}[vrt.Choice(4)]
+	n1 := []uint64{2, 4, 5, 6}[vrt.Choice(4)]
+	rerr := d.Resize([]uint64{n0, n1})
+	beyond := n0 > 8 || n1 > 4
+	vrt.Assert((rerr != nil) == beyond, "resize-refused-exactly-beyond-maximum")
+	vrt.AssertNoErr(fw.Close(), "close-ok")
+	if rerr == nil {
+		return // accepted resizes are the subject of C13
+	}
+	vrt.Covered("refused-resize-made")
+	f, err := Open("c16z.h5")
+	vrt.AssertNoErr(err, "reopen-ok")
+	ds := verifFindDataset(f, "/r")
+	vrt.Assert(ds != nil, "dataset-present")
+	if ds != nil {
+		got, err := ds.Read()
+		vrt.AssertNoErr(err, "read-ok")
+		vrt.Assert(len(got) == 16, "refused-resize-keeps-extent")
+		if len(got) == 16 {
+			for i := range data {
+				vrt.Assert(got[i] == float64(data[i]), "refused-resize-keeps-data")
+			}
+		}
+	}
+	vrt.Covered("failing-call-compared")
+	_ = f.Close()
+}
